@@ -219,23 +219,44 @@ pub fn pop(state: &mut St) -> String {
 
 fn n(a: &[Sx], i: usize) -> u64 { a[i].nat().expect("nat argument") }
 
+/// The `&self` methods: executable while guards are alive. `None` = not a `&self` operation.
+pub fn exec_shared(state: &St, op: &Sx) -> Option<String> {
+    let (name, a) = op.head().expect("op");
+    match name {
+        "dump" => return Some(dump_s(state)),
+        "parget" => {
+            let (d, k) = (n(a, 0), n(a, 1));
+            let mut r: &Rg = &**state;
+            for _ in 0..d { match r.parent() { Some(p) => r = p, None => return Some("noparent".into()) } }
+            return Some(with_key!(k, T => res(r.try_get_value::<T>())));
+        }
+        "hastop" | "has" | "find" | "get" | "tryget" | "set" | "req" => {}
+        _ => return None,
+    }
+    let k = n(a, 0);
+    Some(with_key!(k, T => match name {
+        "hastop" => b(state.contains_at_top::<T>()),
+        "has" => b(state.contains::<T>()),
+        "find" => match state.find::<T>() { Ok(r) => depth_of(state, r as *const Rg), Err(e) => err_s(&e) },
+        "get" => or_panic(catch(|| val(state.get_value::<T>()))),
+        "tryget" => res(state.try_get_value::<T>()),
+        "set" => opt(state.set_value::<T>(n(a, 1))),
+        "req" => match state.requirements().require::<(), T>() { Ok(()) => "ok".into(), Err(e) => err_s(&e) },
+        _ => unreachable!(),
+    }))
+}
+
 /// Executes one `ROp` on the real registry; the result is the canonical output string.
 pub fn exec_rop(state: &mut St, op: &Sx) -> String {
+    if let Some(s) = exec_shared(state, op) { return s; }
     let (name, a) = op.head().expect("op");
     match name {
         "push" => { push(state); return "ok".into(); }
         "pop" => return pop(state),
-        "dump" => return dump_s(state),
         "multi" => {
             let keys: Vec<u64> = a[0].items().unwrap().iter().map(|x| x.nat().unwrap()).collect();
             let d = n(a, 1);
             return or_panic(catch(|| multi(&keys, &mut **state, d)));
-        }
-        "parget" => {
-            let (d, k) = (n(a, 0), n(a, 1));
-            let mut r: &Rg = &**state;
-            for _ in 0..d { match r.parent() { Some(p) => r = p, None => return "noparent".into() } }
-            return with_key!(k, T => res(r.try_get_value::<T>()));
         }
         "parins" => {
             let (d, k, v) = (n(a, 0), n(a, 1), n(a, 2));
@@ -250,13 +271,7 @@ pub fn exec_rop(state: &mut St, op: &Sx) -> String {
         "ins" => opt(state.insert(T::from(n(a, 1))).map(|x| x.0)),
         "rem" => res(state.remove::<T>().map(|x| x.0)),
         "take" => or_panic(catch(|| val(state.take::<T>().0))),
-        "hastop" => b(state.contains_at_top::<T>()),
-        "has" => b(state.contains::<T>()),
-        "find" => match state.find::<T>() { Ok(r) => depth_of(state, r as *const Rg), Err(e) => err_s(&e) },
         "findmut" => match state.find_mut::<T>().map(|r| r as *const Rg) { Ok(p) => depth_of(state, p), Err(e) => err_s(&e) },
-        "get" => or_panic(catch(|| val(state.get_value::<T>()))),
-        "tryget" => res(state.try_get_value::<T>()),
-        "set" => opt(state.set_value::<T>(n(a, 1))),
         "getmut" => opt(state.get_mut::<T>().map(|x| std::mem::replace(&mut x.0, n(a, 1)))),
         "ent-orins" => or_panic(catch(|| val(state.entry::<T>().or_insert(T::from(n(a, 1))).0))),
         "ent-orwith" => or_panic(catch(|| val(state.entry::<T>().or_insert_with(|| T::from(n(a, 1))).0))),
@@ -286,7 +301,49 @@ pub fn exec_rop(state: &mut St, op: &Sx) -> String {
             Entry::Occupied(e) => val(e.remove().0), Entry::Vacant(_) => "vacant".into() })),
         "vac-ins" => or_panic(catch(|| match state.entry::<T>() {
             Entry::Occupied(_) => "occupied".into(), Entry::Vacant(e) => val(e.insert(T::from(n(a, 1))).0) })),
-        "req" => match state.requirements().require::<(), T>() { Ok(()) => "ok".into(), Err(e) => err_s(&e) },
         other => panic!("unknown op {other}"),
     })
+}
+
+// ---------------------------------------------------------------- statements (`holding`, `with_inner_state`)
+fn exec_err(e: &mahf::component::ExecResult<()>) -> String {
+    match e {
+        Ok(()) => "ok".into(),
+        Err(e) => match e.downcast_ref::<StateError>() { Some(se) => err_s(se), None => "(e exec)".into() },
+    }
+}
+
+/// Executes a statement on `&mut State`; pushes its outcomes (body first, the helper's result last).
+pub fn exec_stmt(state: &mut St, s: &Sx, outs: &mut Vec<String>) {
+    let (name, a) = s.head().expect("stmt");
+    match name {
+        "hold" => {
+            let (k, d, ok) = (n(a, 0), n(a, 1), a[2].atom() == Some("ok"));
+            let body = &a[3..];
+            let mut inner = vec![];
+            let r = with_key!(k, T => catch(|| state.holding::<T>(|t, st| {
+                t.0 = t.0.wrapping_add(d);
+                for s in body { exec_stmt(st, s, &mut inner); }
+                if ok { Ok(()) } else { Err(eyre::eyre!("body failed")) }
+            })));
+            outs.extend(inner);
+            outs.push(match r { Some(r) => exec_err(&r), None => "panic".into() });
+        }
+        "inner" => {
+            let ok = a[0].atom() == Some("ok");
+            let body = &a[1..];
+            let mut inner = vec![];
+            let r = catch(|| state.with_inner_state(|st| {
+                for s in body { exec_stmt(st, s, &mut inner); }
+                if ok { Ok(()) } else { Err(eyre::eyre!("body failed")) }
+            }));
+            outs.extend(inner);
+            outs.push(match r {
+                Some(Ok(child)) => tagged("popped", map_s(&child, false, &|_| None)),
+                Some(Err(e)) => exec_err(&Err(e)),
+                None => "panic".into(),
+            });
+        }
+        _ => outs.push(exec_rop(state, s)),
+    }
 }
